@@ -43,11 +43,11 @@ class C07(Check):
     ASSUMPTIONS = ['timestamps are non-decreasing per key; timeouts are >= 0 (a zero timeout makes every item open a new window, as the statement says)',
                    'closing_mapper returns a bool']
     ANCHORS = ['rxsci/data/time_split.py', 'rxsci/operators/multiplex.py']
-    REQUIRED_TAGS = ['top', 'group', 'active', 'inactive', 'no-timeout', 'closing', 'include', 'exclude', 'datetime', 'equal-timestamps', 'gap=timeout', 'day-scale', 'zero-timeout', 'aware-datetimes-mixed-offsets', 'no-timestamps-closing-mapper-only'] + ['operator-object-used-in-two-pipelines'] + PRELUDE_TAGS
+    REQUIRED_TAGS = ['top', 'group', 'active', 'inactive', 'no-timeout', 'closing', 'include', 'exclude', 'datetime', 'equal-timestamps', 'gap=timeout', 'day-scale', 'zero-timeout', 'aware-datetimes-mixed-offsets', 'no-timestamps-closing-mapper-only'] + ['operator-object-used-in-two-pipelines'] + PRELUDE_TAGS + ['prelude:overlap']
     REQUIRED_OBSERVED = ['child_lifetimes_checked', 'parent_lifetimes_checked', 'empty_windows_dropped']
 
     def generate(self, rng, tier, shard, nshards):
-        return with_prelude(with_reuse(self._generate(rng, tier, shard, nshards)), rng)
+        return with_prelude(with_reuse(self._generate(rng, tier, shard, nshards)), rng, overlap=True)
 
     def _generate(self, rng, tier, shard, nshards):
         return interleave(self._box(tier, shard, nshards), self._random(rng, tier))
